@@ -1140,6 +1140,8 @@ def r3b(cx):
 
 _R3B_ABSENT = [re.compile(r'::first$'), re.compile(r'::to_string_if_literal$'), re.compile(r'::get$'), re.compile(r'::first_mut$')]
 _R3B_KW_RESULT = 'core::result::Result<' + KW + ','
+# `word.extend_literal(&mut s)` answering Err(NotLiteral) is "the first word is not a literal" as much as to_string_if_literal() == None
+_R3B_NOT_LITERAL = 'core::result::Result<(), ' + SYN + 'conversions::NotLiteral>'
 
 
 def _r3b_sources(b, du, local, depth=24):
@@ -1259,13 +1261,13 @@ def _r3b_justified_edges(cx, F, b, du, words, covered_residuals=None):
             if lab == ('variant', 'Break') and ty.startswith('core::ops::control_flow::ControlFlow<core::option::Option<core::convert::Infallible>'):
                 return absent_value(org['pl']['l'])
             # "from the keyword table": the lookup result (a Result<Keyword, _>) is known to be Err on this path
-            if lab == ('variant', 'Err') and ty.startswith(_R3B_KW_RESULT):
+            if lab == ('variant', 'Err') and (ty.startswith(_R3B_KW_RESULT) or ty == _R3B_NOT_LITERAL):
                 return True
             return False
         if org['k'] == 'call' and lab[0] == 'bool':
             t = org['t']
             at0 = ((t.get('at') or [''])[0]).lstrip('&')
-            if at0.startswith(_R3B_KW_RESULT) and \
+            if (at0.startswith(_R3B_KW_RESULT) or at0 == _R3B_NOT_LITERAL) and \
                     ((Q.callee_is(t, [re.compile(r'^core::result::Result::<T, E>::is_err$')]) and lab[1] is True) or
                      (Q.callee_is(t, [re.compile(r'^core::result::Result::<T, E>::is_ok$')]) and lab[1] is False)):
                 return True
